@@ -221,6 +221,15 @@ def rule_conc(filter_names=None):
                             if k == "core::sync::atomic::Atomic::store":
                                 o.check(const_is(ev["args"][1], 0), prog.pretty[wp], "flag-monotone",
                                         "a worker stores a value other than `false` into the shared flag (not monotone)", ev["span"])
+                            elif k in ("std::sync::poison::mutex::Mutex::try_lock", "std::sync::poison::rwlock::RwLock::try_write",
+                                       "std::sync::poison::rwlock::RwLock::try_read"):
+                                o.check(False, prog.pretty[wp], "try-lock-in-worker",
+                                        "a worker's control flow depends on whether another thread holds a lock (schedule-dependent result)", ev["span"])
+                            elif through_lock(wan, wfx, ev["args"][0] if ev["args"] else None) and k not in COMMUTATIVE_UNDER_LOCK \
+                                    and k not in LOCK_PLUMBING:
+                                o.check(False, prog.pretty[wp], "non-commutative-under-lock",
+                                        "a worker performs %s on state shared under a Mutex: the outcome depends on the order in which workers "
+                                        "take the lock" % k.split("::")[-1], ev["span"])
                             elif k == "core::ptr::write":
                                 c_, idx, kind = _root_of_ptr(crate, wan, ev["args"][0])
                                 ok = idx is not None and _is_partition_var(wan, wfx, idx)
@@ -417,3 +426,32 @@ def rows_complete(crate, wc):
             out.append((ok, ev["span"], "a row of an operand can be skipped although it exists: the branch that does not read row u "
                         "does not establish u >= len(operand rows)"))
     return out
+
+
+COMMUTATIVE_UNDER_LOCK = {"alloc::collections::btree::set::BTreeSet::insert"}
+LOCK_PLUMBING = {"core::ops::deref::DerefMut::deref_mut", "core::ops::deref::Deref::deref", "core::result::Result::unwrap_unchecked",
+                 "core::result::Result::unwrap", "core::result::Result::expect", "std::sync::poison::mutex::Mutex::lock",
+                 "core::mem::drop"}
+
+
+def through_lock(an, fx, t, depth=0):
+    """the receiver term reaches its object through a Mutex::lock() guard"""
+    if t is None or depth > 10 or not isinstance(t, tuple) or not t:
+        return False
+    if t[0] == "site":
+        ev = fx.an_call_at(t[1])
+        if ev is None:
+            return False
+        if ev["key"] == "std::sync::poison::mutex::Mutex::lock":
+            return True
+        return bool(ev["args"]) and through_lock(an, fx, ev["args"][0], depth + 1)
+    if t[0] == "call" and t[3]:
+        return through_lock(an, fx, t[3][0], depth + 1)
+    if t[0] in ("field", "dc"):
+        return through_lock(an, fx, t[1], depth + 1)
+    if t[0] in ("addr", "at") and t[2] is None:
+        vals = [v for (var, ver), v in an.term_of.items() if var == t[1] and v[0] != "opq"]
+        return len(vals) == 1 and through_lock(an, fx, vals[0], depth + 1)
+    if t[0] == "addr" and t[2] is not None:
+        return through_lock(an, fx, t[2], depth + 1)
+    return False
